@@ -707,9 +707,19 @@ func (v *Verifier) cellSortByName(pkg0 *types.Package, name string) *Sort {
 		if i := strings.Index(name, "."); i >= 0 {
 			pn := name[:i]
 			name = name[i+1:]
+			found := false
 			for _, p := range v.P.Prog.AllPackages() {
 				if p.Pkg.Name() == pn && (inRepo(p.Pkg)) {
 					pkg = p.Pkg
+					found = true
+				}
+			}
+			if !found && pkg0 != nil {
+				// a dependency, as imported by the contract's package
+				for _, ip := range pkg0.Imports() {
+					if ip.Name() == pn {
+						pkg = ip
+					}
 				}
 			}
 		}
